@@ -305,8 +305,19 @@ func runFaulted(t interface {
 		if msg := readcheck.FilesEqualChip(b.p, &r.DocEx.Document); msg != "" {
 			evid.Fail(t, check+"-trust", rep, "data trusted although %s", msg)
 		}
-		if _, ok := readcheck.DocFiles(&r.DocEx.Document)["SOD"]; !ok {
+		got := readcheck.DocFiles(&r.DocEx.Document)
+		if _, ok := got["SOD"]; !ok {
 			evid.Fail(t, check+"-trust", rep, "data trusted without a security object")
+		}
+		// ... and the completeness check passed: DG14 / DG15 listed by the security object were obtained
+		// (this also covers the partial result that accompanies a read error)
+		for _, dg := range b.p.SODListed {
+			if dg != 14 && dg != 15 {
+				continue
+			}
+			if _, have := got[fmt.Sprintf("DG%d", dg)]; !have {
+				evid.Fail(t, check+"-trust", rep, "data trusted although DG%d, listed in the security object, was not obtained (read error: %v)", dg, r.Err)
+			}
 		}
 	}
 	// 4. "the read ends with an error or with that step recorded as failed": a read that reports no
